@@ -26,14 +26,14 @@ CHECKS = {
  "C18": dict(
    engine="simkit+h-sandbox",
    category="exploration",
-   text="Seeded deterministic simulation of the real parent.rs + child.rs + frame.rs (client task, run_task, one controlled thread per child process, virtual timers, bounded pipes with short I/O, kill/exit/abort) over seeded request sequences from the property's alphabet with every fault kind in every position; per-request reference oracle (own reply, in order, recovery, bounded liveness, no deadlock). Sampling, not enumeration: a clean batch is evidence. Violations are minimised and replay bit-for-bit.",
+   text="Seeded deterministic simulation of the real parent.rs + child.rs + frame.rs (client task, run_task, one controlled thread per child process, virtual timers, bounded pipes with short I/O, kill/exit/abort) over seeded request sequences from the property's alphabet (the first 9330 runs of a batch enumerate every sequence of kinds of length 1..5, every fault kind in every position; the rest are random); per-request reference oracle (own reply, in order, recovery, bounded liveness, no deadlock). Sampling, not enumeration: a clean batch is evidence. Violations are minimised and replay bit-for-bit.",
    design_ref="DESIGN.md 5.1",
    note="Trusted: simkit's POSIX-like pipe/process/timer model (EPIPE, EOF, kill closes ends at once), one child = one controlled thread, interleavings at seam granularity, memory exhaustion modelled as alloc(limit+1)+abort on a private Alloc.",
    technique="deterministic simulation with fault injection: seeded schedules x fault sequences, per-step reference oracle, minimised replay"),
  "C19": dict(
    engine="simkit+h-sandbox",
    category="exploration",
-   text="Seeded deterministic simulation of the real alloc.rs: operation histories (alloc, alloc_zeroed, realloc up/down, dealloc; boundary sizes around the limit; four limits) against a reference ledger, sequentially with checks after every operation and concurrently from 2..16 controlled threads where every atomic operation is a scheduling point under seeded policies; the parent allocator is made to refuse with a seeded probability. Invariants: conservation of tracked usage, limit never exceeded by a success, refusal is a no-op on usage and block contents, peak never below the high-water mark, zeroing and prefix preservation. Sampling, not enumeration.",
+   text="Seeded deterministic simulation of the real alloc.rs: operation histories (alloc, alloc_zeroed, realloc up/down, dealloc; boundary sizes around the limit; four limits) against a reference ledger, sequentially with checks after every operation (the first runs of a batch enumerate all histories up to length 4 over 22 operations; the rest are random) and concurrently from 2..16 controlled threads where every atomic operation is a scheduling point under seeded policies; the parent allocator is made to refuse with a seeded probability. Invariants: conservation of tracked usage, limit never exceeded by a success, refusal is a no-op on usage and block contents, peak never below the high-water mark, zeroing and prefix preservation. Sampling, not enumeration.",
    design_ref="DESIGN.md 5.2",
    note="Trusted: sequentially consistent interleavings only (one thread runs at a time); reset_max/get_max only at quiescent points; conservative refusals are allowed by the one-directional 'only if'.",
    technique="deterministic simulation with fault injection: controlled-thread scheduler over atomic operations + failing parent allocator, reference ledger oracle, minimised replay"),
@@ -47,10 +47,10 @@ CHECKS = {
  "C15": dict(
    engine="simkit+h-history",
    category="exploration",
-   text="Seeded histories of queries on one Context driven only through rink_core::eval under a virtual wall clock (advances and backward jumps) with the save_previous_result flag toggled; after every query the reply is compared with the reply of a separate context that is only touched by shared reference with the previous answer preset from a small model of `ans`; stored previous result, clock and settings are compared with the model, and a Debug dump of the whole context is compared with a pristine one. Modest claim: no concurrency or I/O exists here; the simulator contributes the clock seam, the history driver, the reference model and replay/minimisation.",
+   text="Seeded histories of queries on one Context driven only through rink_core::eval under a virtual wall clock (advances and backward jumps) with the save_previous_result flag toggled. Three readings of 'a fresh context' are compared with it: a model of ans/clock/settings after every query; an in-process reference context driven through the same entry point with ans, flag and clock preset from the model before every query; and, for a seeded subset of each history, a brand-new OS process (fresh context, statics and thread-locals). A context whose Debug dump differs from a pristine one is questioned with a battery of queries against a fresh process. Replays run in a fresh process; a violation that needs earlier histories of the worker is re-expressed as one combined history. Modest claim: no concurrency or I/O exists here; the simulator contributes the clock seam, the history driver, the reference model and replay/minimisation.",
    design_ref="DESIGN.md 5.4",
-   note="Trusted: the reference context (rebuilt from text every 64 histories and for every replay); replies in seconds may or may not update ans (both accepted).",
-   technique="deterministic simulation: seeded query histories under a simulated clock against a per-step reference model, minimised replay"),
+   note="Trusted: the model of ans (replies in seconds may or may not update ans: both accepted); state leaking outside the context is only visible to the fresh-process subset (sampled).",
+   technique="deterministic simulation: seeded query histories under a simulated clock against a per-step reference model and a fresh-process oracle, minimised replay"),
 }
 
 def build():
